@@ -45,6 +45,11 @@ class C04(FragHarness, WrapHarness):
             out.append({'entry': 'indent', 'feat': feat, 'gen': 'sym1', 'n': 3 if q else 4})
             out.append({'entry': 'dedent', 'feat': feat, 'gen': 'sym1', 'n': 4 if q else 5})
             out.append({'entry': 'dedent', 'feat': feat, 'gen': 'symall', 'n': 3})
+            out.append({'entry': 'dedent', 'feat': feat, 'gen': 'symcls', 'classes': (1, 2), 'n': 5})
+            if feat == 'full':
+                out.append({'entry': 'dedent', 'feat': feat, 'gen': 'symcls', 'classes': (1, 3), 'n': 5})
+                out.append({'entry': 'unfill', 'feat': feat, 'gen': 'symcls', 'classes': (1, 3), 'n': 4})
+                out.append({'entry': 'indent', 'feat': feat, 'gen': 'symcls', 'classes': (1, 2), 'n': 4})
             out.append({'entry': 'display_width', 'feat': feat, 'gen': 'symall', 'n': 4 if q else 5})
             out.append({'entry': 'words', 'feat': feat, 'sep': 'A', 'split': 'H', 'gen': 'sym1', 'n': 4 if q else 5})
             out.append({'entry': 'words', 'feat': feat, 'sep': 'A', 'split': 'C1', 'gen': 'symall', 'n': 2 if q else 3})
